@@ -352,6 +352,42 @@ def t_context():
     return stats
 
 
+# ------------------------------------------------------------------ root / fake-root / context references from inside nested filters
+
+NESTED_TEMPLATES = [
+    "$.items[?@.a[?@.b == $.c]]", "$.items[?@.a[?@.b == $.k]]", "$.items[?@.a[?@.b == _.c]]", "$.items[?count(@.a[?@.b == $.c]) == 1]",
+    "$.items[?@.a[?$.items[?@.a]]]", "^[?@.items[?@.a[?@.b == ^[0].c]]]", "$.items[?_.items[?@ == $.c]]", "$.items[?_.items[?@ == $.k]]",
+    "$..[?@.b == $.c]", "$.items[*].a[?@.b == $.items[0].a[0].b]", "$.items[?@.a[?@.b == $.c || @.b == $.k]]",
+    "$.items[?@.a[?@[?@ == $.c]]]", "$.items[?@.a[?@.b != $.c && @.b == _.c]]", "$.items[?@.a[?length(^[0].items) == @.b]]",
+    "$.items[?@.a[0][?@ == $.c]]", "$.items[?value(@.a[?@.b == $.k].b) == $.k]", "$[?@[?@.a[?@.b == $.c]]]", "$.items[?@..[?@.b == $.c]]",
+    "$.items[?@.a[?@.b == $.c]] | $.items[?@.a[?@.b == $.k]]", "$.items[?@.a[?@.b == $.c]] & $.items[*]",
+]
+NESTED_DOCS = [
+    {"items": [{"a": [{"b": 1}, {"b": 2}]}, {"a": [{"b": 2}]}, {"a": [{"b": 3}], "c": 3, "k": 3}], "c": 1, "k": 2, "b": 1},
+    {"items": [{"a": [{"b": 1, "c": 2}], "c": 2}, {"a": [[1, 2], {"b": 2}], "k": 1}], "c": 2, "k": 1},
+    [{"a": [{"b": 0}]}, {"items": [{"a": [{"b": 1}]}], "c": 1}],
+]
+
+
+def t_nested():
+    stats = Stats()
+    loop = asyncio.new_event_loop()
+    rng = random.Random(11)
+    n = 0
+    try:
+        for tpl, doc, ctx in itertools.product(NESTED_TEMPLATES, NESTED_DOCS, (None, {"c": 2, "k": 1, "items": [1, 2]})):
+            for variant in ("plain", "wrapped"):
+                want = judge(stats, loop, tpl, doc, ctx, variant, rng)
+                n += 1
+            if want is not None and want[0] == "ok" and want[1]:
+                stats.nt("nested", tpl, canon(doc))
+    finally:
+        loop.close()
+    stats.subspaces.append({"name": "20 queries whose nested filters refer to the root / fake root / filter context from two or three levels down "
+                                    "x 3 documents x {no, some} context x {plain, async-getter}", "size": n, "exhaustive": True})
+    return stats
+
+
 # ------------------------------------------------------------------ one compiled query, several documents, interleaved
 
 
@@ -521,7 +557,7 @@ def t_errors():
 
 
 def tasks(tier, seed):
-    ts = [{"name": "matrix", "fn": "t_matrix"}, {"name": "context", "fn": "t_context"}, {"name": "errors", "fn": "t_errors"}]
+    ts = [{"name": "matrix", "fn": "t_matrix"}, {"name": "context", "fn": "t_context"}, {"name": "nested", "fn": "t_nested"}, {"name": "errors", "fn": "t_errors"}]
     for k in range(4):
         ts.append({"name": "shared-%d" % k, "fn": "t_shared", "kw": {"seed": mix(seed, ID, "s", k), "n": 500 if tier == "quick" else 8000}})
     n = 1200 if tier == "quick" else 20000
